@@ -120,14 +120,16 @@ def _is_bool(sel, wires):
     qm, ql, qr, qo, qf, qc, qar = sel[:7]
     return qar == 1 and qm == 1 and ql == 0 and qr == 0 and qo == R - 1 and qf == 0 and qc == 0 and wires[0] == wires[1] == wires[2]
 
-def rewitness(snap: Snapshot, wits, frozen=(), first_new=0):
+def rewitness(snap: Snapshot, wits, frozen=(), first_new=0, overflow=False):
     """Recompute, in row order, every witness the honest generator derives from
     earlier ones, leaving [frozen] (adversarially chosen) untouched:
       * c wire of an arithmetic row with q_o != 0 when c is first used there;
       * the accumulators of a range block from the current value of the wire
         the closing assert_equal binds them to;
       * the (lower, top_bit) split of an odd-width range check.
-    Works on whatever layout the real code emitted (also a mutated one)."""
+    Works on whatever layout the real code emitted (also a mutated one).
+    overflow=True: the accumulators are the unmasked shifts of the bound value, so
+    whatever does not fit lands in the FIRST cell of the chain (adversarial fill)."""
     w = list(wits)
     frozen = set(frozen)
     gates = snap.gates
@@ -166,7 +168,7 @@ def rewitness(snap: Snapshot, wits, frozen=(), first_new=0):
                     c = len(seq_)
                     for t, a_ in enumerate(seq_):
                         if a_ not in frozen and a_ >= first_new:
-                            w[a_] = ((v >> (2 * (c - 1 - t))) % (1 << (2 * (t + 1)))) % R
+                            w[a_] = ((v >> (2 * (c - 1 - t))) % R) if overflow else ((v >> (2 * (c - 1 - t))) % (1 << (2 * (t + 1)))) % R
                 for k in range(i, j + 1): seen.update(gates[k][1])
                 i = j + 1
                 continue
